@@ -172,6 +172,16 @@ fn module_text(kind: &str, comps: &str, defs: &str) -> Option<(String, Vec<Strin
     }
     let mut text = String::from("TagsMod DEFINITIONS AUTOMATIC TAGS ::= BEGIN\n");
     text.push_str(&format!("Tst ::= {} {{ {} }}\n", kw, items.join(", ")));
+    for (name, def) in definitions(defs)? {
+        text.push_str(&format!("{} ::= {}\n", name, def));
+    }
+    text.push_str("END\n");
+    Some((text, names))
+}
+
+/// `(name, tagged type text)` of the definitions of a request
+fn definitions(defs: &str) -> Option<Vec<(String, String)>> {
+    let mut out = Vec::new();
     if defs != "-" {
         for d in split_top(defs, ';') {
             let (name, rest) = d.split_once('=')?;
@@ -179,11 +189,62 @@ fn module_text(kind: &str, comps: &str, defs: &str) -> Option<(String, Vec<Strin
                 return None;
             }
             let (tag, ty) = rest.split_once(':')?;
-            text.push_str(&format!("{} ::= {}{}\n", name, tag_text(tag)?, type_text(ty)?));
+            out.push((name.to_string(), format!("{}{}", tag_text(tag)?, type_text(ty)?)));
         }
     }
-    text.push_str("END\n");
-    Some((text, names))
+    Some(out)
+}
+
+/// The same type with its definitions moved into a sibling module `TagsLib` and imported from there,
+/// while a third loaded module (`TagsDecoy`, not imported by anybody) defines types of the same names
+/// with other tags.  X.680 gives an imported reference the tag of the type it names in the module
+/// after FROM, so the answer has to be the one of the single module.  `order`: load order of
+/// (decoy, lib, main).
+fn stage1_imported(text: &str, defs: &str, order: [usize; 3]) -> Result<String, &'static str> {
+    use asn1rs::model::asn::MultiModuleResolver;
+    let defs = definitions(defs).ok_or("request")?;
+    let mut seen = Vec::new();
+    for (n, _) in &defs {
+        if !seen.contains(n) {
+            seen.push(n.clone());
+        }
+    }
+    let first_line_end = text.find('\n').ok_or("request")? + 1;
+    let tst_end = text[first_line_end..].find('\n').ok_or("request")? + first_line_end + 1;
+    let main = format!(
+        "{}IMPORTS {} FROM TagsLib;\n{}END\n",
+        &text[..first_line_end],
+        seen.join(", "),
+        &text[first_line_end..tst_end]
+    );
+    let mut lib = String::from("TagsLib DEFINITIONS AUTOMATIC TAGS ::= BEGIN\n");
+    for (n, d) in &defs {
+        lib.push_str(&format!("{} ::= {}\n", n, d));
+    }
+    lib.push_str("END\n");
+    let mut decoy = String::from("TagsDecoy DEFINITIONS AUTOMATIC TAGS ::= BEGIN\n");
+    for (i, n) in seen.iter().enumerate() {
+        decoy.push_str(&format!("{} ::= [PRIVATE {}] NULL\n", n, 987650 + i));
+    }
+    decoy.push_str("END\n");
+    let texts = [decoy, lib, main];
+    let mut resolver = MultiModuleResolver::default();
+    for i in order {
+        let model = Model::try_from(Tokenizer.parse(&texts[i])).map_err(|_| "parse")?;
+        resolver.push(model);
+    }
+    let models = resolver.try_resolve_all().map_err(|_| "resolve")?;
+    let scope = models.iter().collect::<Vec<_>>();
+    let mut generator = RustCodeGenerator::default();
+    for model in &models {
+        generator.add_model(model.to_rust_with_scope(&scope[..]));
+    }
+    let files = generator.to_string().map_err(|_| "generate")?;
+    Ok(files
+        .into_iter()
+        .map(|(_file, content)| content)
+        .collect::<Vec<_>>()
+        .join("\n"))
 }
 
 /// stage 1: the Rust source the converter writes for the module
@@ -359,7 +420,29 @@ pub fn handle(args: &[&str]) -> Option<String> {
     if dump {
         eprintln!("---- stage 1\n{}", src);
     }
-    let (attr, item) = find_item(&src, "Tst")?;
+    let single = analyse(&src, &names, dump)?;
+    if defs != "-" && single.starts_with("ok ") {
+        for order in [[0, 1, 2], [2, 1, 0], [1, 0, 2]] {
+            let other = match stage1_imported(&text, defs, order) {
+                Ok(src) => std::panic::catch_unwind(|| analyse(&src, &names, false))
+                    .unwrap_or_else(|_| Some("panic".to_string()))
+                    .unwrap_or_else(|| "unreadable".to_string()),
+                Err(e) => format!("err {}", e),
+            };
+            if other != single {
+                return Some(format!(
+                    "imported-differs [{}] with the definitions imported from a sibling module (load order {:?} of decoy, lib, main) instead of [{}]",
+                    other, order, single
+                ));
+            }
+        }
+    }
+    Some(single)
+}
+
+/// order of the components and TAG constants of `Tst` in the stage-1 source
+fn analyse(src: &str, names: &[String], dump: bool) -> Option<String> {
+    let (attr, item) = find_item(src, "Tst")?;
     let out = stage2(&attr, &item)?;
     if dump {
         eprintln!("---- stage 2\n{}", out);
@@ -379,7 +462,7 @@ pub fn handle(args: &[&str]) -> Option<String> {
     };
     let mut read_order: Vec<(usize, &String)> = Vec::new();
     let mut write_order: Vec<(usize, &String)> = Vec::new();
-    for n in &names {
+    for n in names {
         let r = format!("{}:AsnDefTstField{}::read_value(reader)?", n, camel(n));
         let w = format!("AsnDefTstField{}::write_value(writer,&self.{})?", camel(n), n);
         read_order.push((read_part.find(&r)?, n));
